@@ -488,7 +488,9 @@ void World::opRaw(const Item& op)
         if (f.bytes.size() + wire::MSG_HDR + len > 400000)
             break;
         Bytes body;
-        if (kind != wire::K_GENERIC && !m.get("rawbody", 0))
+        if (kind == wire::K_CMSTAT && m.get("nonul", 0))
+            body = makeCmNoNul(id);
+        else if (kind != wire::K_GENERIC && !m.get("rawbody", 0))
             body = makePayload(kind, len, id);
         else
             body = contentBytes(id, static_cast<uint32_t>(m.get("off", 0)), len);
@@ -644,6 +646,10 @@ void World::opTecmp(const Item& op)
         else
             body[4] = static_cast<uint8_t>(op.get("ilen"));
     }
+    if (op.has("p1o") && !body.empty())
+        body[static_cast<size_t>(std::max<int64_t>(0, op.get("p1o"))) % body.size()] = static_cast<uint8_t>(op.get("p1v"));
+    if (op.has("p2o") && !body.empty())
+        body[static_cast<size_t>(std::max<int64_t>(0, op.get("p2o"))) % body.size()] = static_cast<uint8_t>(op.get("p2v"));
     if (op.has("cut"))
         body.resize(std::min<size_t>(body.size(), static_cast<size_t>(std::max<int64_t>(0, op.get("cut")))));
     h.plen = static_cast<uint16_t>(op.has("plen") ? op.get("plen") : static_cast<int64_t>(body.size()));
